@@ -284,6 +284,13 @@ def gen_cons(rng, g, D, x0, kind):
         far = [a + smin * rng.uniform(0.5, 1.5) * t for a, t in zip(anchor, unit())]
         p2 = gen_cons(rng, g, D, far, "ball")
         return dict(kind="union", parts=[p1, p2])
+    if kind == "hole":
+        # the centre of the plausible box (the origin of the internal coordinates, a node of every mesh) is infeasible:
+        # a ball around it is cut out; the start is expected on a coarse lattice point outside the hole
+        c = [(p + q) / 2 for p, q in zip(plb, pub)]
+        r1 = smin * rng.uniform(0.05, 0.2)
+        big = 10.0 * max(max(abs(q - p) for p, q in zip(g["lb"], g["ub"])) if g["lb"] is not None else 0.0, max(scale)) * math.sqrt(D)
+        return dict(kind="annulus", c=[_r(v, 12) for v in c], r1=_r(r1, 6), r2=_r(big, 6), hole=True)
     if kind == "corner":
         # half-space cutting a wedge against one finite hard-bound face: feasible points near the corner lie between
         # the face and the plane, so moving inward from the bound makes them infeasible. Returns the corner as well
@@ -544,6 +551,20 @@ def make_scenario(seed, profile=None, index=0):
         cons = gen_cons(rng, g, D, x0, ckind)
         cons["ret"] = "bool" if rng.random() < 0.4 else "float"
         cons["gen_kind"] = ckind
+        if cons.pop("hole", False) and x0 is not None and not any(g["islog"]):
+            # start on a lattice point of the internal grid (quarter steps of the plausible box) outside the hole
+            pl_ = g["plb"] if g["plb"] is not None else g["lb"]
+            pu_ = g["pub"] if g["pub"] is not None else g["ub"]
+            for _ in range(20):
+                x0 = [0.5 * (pl_[t] + pu_[t]) + (pu_[t] - pl_[t]) * rng.choice([-0.5, -0.5, 0.5, 0.5, -0.25, 0.25, 0.0]) for t in range(D)]
+                if sum((x0[t] - cons["c"][t]) ** 2 for t in range(D)) > (1.5 * cons["r1"]) ** 2:
+                    break
+            else:
+                x0 = [0.5 * (pl_[t] + pu_[t]) + (pu_[t] - pl_[t]) * 0.5 for t in range(D)]
+            scn["x0"], scn["x0_class"] = [float(v) for v in x0], "on_bound"
+            if scn["target"]["family"] in ("quad", "abs"):
+                # optimum on the far side of the hole
+                scn["target"]["c"] = [_r(2 * cons["c"][t] - x0[t], 9) for t in range(D)]
         if cons.get("corner") is not None:
             # unconstrained optimum just beyond the corner (outside the bound, on the infeasible side of the plane)
             co, out = cons.pop("corner"), cons.pop("corner_out")
@@ -639,6 +660,11 @@ def make_scenario(seed, profile=None, index=0):
             scn["fstar"] = scn["fstar"] * mul
         scn["options"].pop("noise_size", None)
         scn["options"]["max_fun_evals"] = min(int(scn["options"].get("max_fun_evals", 40)), 40)
+    if mrng.random() < prof.get("second_optimize_p", 0.0):
+        scn["second_optimize"] = True
+    # StoBADS requested for a target that turns out deterministic (documented: it is then switched off at run time)
+    if scn.get("noise") is None and "uncertainty_handling" not in scn["options"] and mrng.random() < prof.get("knobs", {}).get("stobads", 0.05):
+        scn["options"]["stobads"] = True
     # noise handling explicitly declined instead of left unset (deterministic or auto-detected targets)
     if "uncertainty_handling" not in scn["options"] and mrng.random() < 0.3:
         scn["options"]["uncertainty_handling"] = False
